@@ -126,6 +126,17 @@ func (tl *store) applyFrom(tx stoabs.WriteTx, base *event, applyList []event) er
 		}
 	}
 
+	if base == nil && len(applyList) > 0 && applyList[0].document != nil {
+		// the new event became the first event of an already known DID: that DID may already be marked as conflicted
+		b, err := conflictedWriter.Get(stoabs.BytesKey(applyList[0].document.ID.String()))
+		if err != nil && !errors.Is(err, stoabs.ErrKeyNotFound) {
+			return err
+		}
+		if len(b) > 0 {
+			conflicted = true
+		}
+	}
+
 	for _, nextEvent := range applyList {
 		document, metadata, err = applyEvent(tx, metadata, nextEvent)
 		if err != nil {
